@@ -48,6 +48,10 @@ def cases(tier, seed):
             if not supp and p[0] != '/':
                 continue
             yield dict(kind='strings', supp=supp, prefix=p, L=L)
+    # the same with symbols a lenient reader might take for padding (blank, NUL, line end) next to the delimiter and a letter
+    for alpha in ('/ a\x00', '/ \n\t', '/a \r'):
+        for supp in (False, True):
+            yield dict(kind='strings-alpha', supp=supp, alpha=alpha, L=7 if tier == 'quick' else 9)
     # dictionaries
     yield dict(kind='dict1', maxlen=3)
     S = strs('xy/', 2 if tier == 'quick' else 3)
@@ -209,6 +213,16 @@ def run_case(c):
                 for t in itertools.product('/ab', repeat=n):
                     judge(res, p + ''.join(t), supp)
             res.sample({'prefix': p, 'max_length': c['L'], 'supplemental': supp, 'example': p + 'a//b/'})
+        return res
+    if k == 'strings-alpha':
+        supp = c['supp']
+        for n in range(0, c['L'] + 1):
+            for t in itertools.product(c['alpha'], repeat=n):
+                s = ''.join(t)
+                if not supp and s and s[0] != '/':
+                    continue
+                judge(res, s, supp)
+        res.sample({'strings_up_to_length': c['L'], 'alphabet': repr(c['alpha']), 'supplemental': supp})
         return res
     if k in ('dict1', 'dict2'):
         S = strs('xy/', c['maxlen'])
@@ -470,6 +484,22 @@ def judge_file(res, lay, one):
             dd = FlowCal.io.FCSData(path)
     except Exception as e:
         res.violation('file-refused:%s' % type(e).__name__, 'well-formed file (delimiter %r) refused: %s: %s' % (
+            lay['delim'], type(e).__name__, e), one)
+        return
+    # the same file through an open file object the caller has already looked into, and through that object a second time
+    try:
+        with warnings.catch_warnings():
+            warnings.simplefilter('ignore')
+            with open(path, 'rb') as fh:
+                fh.read(3)
+                f1 = FlowCal.io.FCSFile(fh)
+                f2 = FlowCal.io.FCSFile(fh)
+        for label, ff in (('an open file object that was read from before', f1), ('the same file object a second time', f2)):
+            if dict(ff.text) != dict(dd.text) or dict(ff.analysis) != dict(dd.analysis):
+                res.violation('file-handle', 'read through %s the keywords / ANALYSIS differ from those read by path' % label, one)
+                return
+    except Exception as e:
+        res.violation('file-handle-refused:%s' % type(e).__name__, 'well-formed file (delimiter %r) refused when read through an open file object that was read from before: %s: %s' % (
             lay['delim'], type(e).__name__, e), one)
         return
     if dd.text != exp:
